@@ -24,7 +24,12 @@
      structural chain), [quality_agree] (quality_of = s_q (compute_state)), [bsearch_agree] (the two sort.Search definitions
      differ only when the fuel runs out, and with the fuel both callers pass it never does: pure arithmetic, no invariant
      needed), [find_agree] (find_checkpoint = find_cp, error codes forgotten), [accepts_agree], [select_agree].
-   Part 2 (Compose/CrashBftSim.v): the simulation of import / restart / whole histories and the transfer corollaries. *)
+   Part 2 (below, same section): [commit_sim] (CommitBlock), [import_sim] (one import: same outcome class, the new store refines
+   the new node), [restart_sim] / [crash_image_restart_sim] (restart of an uncut store is Bft's restart; restart of ANY crash
+   image, F6 repair included, is the Bft node before or after the interrupted import), [run_sim], [genesis_sim], [resume_sim]
+   (through Crash's resume_converges), the abstraction function ([abs_refines], [abs_import_step]: it commutes with import),
+   the transfers of C04 / C03 theorems ([sim_quality_from_scratch], [run_node_ok], [sim_function_of_set], [run_fin_trace])
+   and, in section FromGenesis, the statements Properties/C13.v restates.  [tr_small]: an instance of the id bridge. *)
 From Coq Require Import List NArith ZArith Bool Lia.
 From Coq Require Import ZifyN ZifyNat ZifyBool.
 From Verif Require Import Crash.Model Crash.ProofsStore Crash.ProofsInv Crash.ProofsImport Crash.ProofsCrash
@@ -984,6 +989,132 @@ Proof.
   exists r. split; [exact Hr|]. apply eqv_sym in He.
   destruct (run_sim hist s0 nd0 Hc S0 Hh) as [Rf Hfl Hi Hfo].
   constructor; [eapply eqv_refines; eauto | eapply eqv_flags_ok; eauto | exact Hi | exact Hfo].
+Qed.
+
+(* ---------------------------------------------------------------- restart on a crash image *)
+Lemma na_refines s s' nd : eqv_na s s' -> Inv c s' -> refines s nd -> refines s' nd.
+Proof.
+  intros En I' [[Hf Hi Hq Hw HI Hd] (best & Hb & Eb) F].
+  assert (S : forall i, get_summary s' i = get_summary s i) by (intro i; symmetry; apply na_get_summary; auto).
+  constructor.
+  - constructor.
+    + intros id Hid. rewrite S. auto.
+    + intros x Hx. destruct (Hi x Hx) as (id & sm & H1 & H2). exists id, sm. rewrite S. auto.
+    + intros id Hid. rewrite <- (na_get_quality s s' En). auto.
+    + exact Hw.
+    + exact I'.
+    + intros id H. apply Hd. rewrite (na_stored s s' En). exact H.
+  - exists best. rewrite <- (na_get_id s s' En) by reflexivity. auto.
+  - rewrite <- (na_finalized s s' En). exact F.
+Qed.
+
+(* NewRepository + NewEngine (with the F6 repair) on the image a crash after ANY number of batches of one import leaves: the
+   node that comes up refines Bft.Model.restart of the abstract node BEFORE the interrupted import (the cut precedes the block
+   bulk: only trie nodes / code were written, nothing is visible) or AFTER it (the cut follows the block bulk: the repair
+   re-runs the pending CommitBlock).  No third state exists. *)
+Theorem crash_image_restart_sim s nd b j : wf_cfg2 c -> Inv2 c s -> sim s nd -> blk_ok s nd b ->
+  (j < length (import_batches c s b))%nat ->
+  let s' := apply_writes s (firstn j (import_batches c s b)) in
+  exists best, restart c true s' = Some (restart_store c true s', best, finalized c (restart_store c true s')) /\
+    (refines (restart_store c true s') (BM.restart nd) \/
+     refines (restart_store c true s') (BM.restart (fst (BM.import true bc nd (ablk b))))).
+Proof.
+  intros Hc2 I2 Sm Hb Hj s'. pose proof Hc2 as [Hc HL]. pose proof (i2_inv c s I2) as I. destruct I2 as [_ Q H].
+  pose proof Hb as (_ & _ & _ & Hwf & _).
+  pose proof (import_all_prefixes c s b Hc I Hwf) as AP.
+  assert (I' : Inv c s') by (apply all_prefixes_firstn; auto).
+  destruct (restart_shape c s' Hc I') as (best & _ & Er). exists best. split; [exact Er|].
+  assert (Before : forall ws tl, (forall w, In w ws -> aux_batch w) -> import_batches c s b = ws ++ tl -> (j <= length ws)%nat ->
+            refines (restart_store c true s') (BM.restart nd)).
+  { intros ws tl Haux EW Hle.
+    assert (Es' : s' = apply_writes s (firstn j ws)).
+    { unfold s'. rewrite EW, firstn_app. replace (j - length ws)%nat with 0%nat by lia. cbn [firstn]. rewrite app_nil_r. reflexivity. }
+    assert (Ena : eqv_na s s').
+    { rewrite Es'. apply aux_writes_eqv_na. intros w Hw. apply Haux. eapply in_firstn; eauto. }
+    rewrite restart_store_noop; [|eapply Qinv_na; eauto | eapply Hinv_na; eauto].
+    apply restart_refines. apply (na_refines s s' nd Ena I'). exact (sim_ref _ _ Sm). }
+  destruct (import_cases c s b) as [E|[[_ E]|(ab & M & E)]].
+  - rewrite E in Hj. cbn in Hj. lia.
+  - left. apply (Before (state_batches b (conf_of s b)) []); [intros; eapply state_batches_aux; eauto | rewrite app_nil_r; exact E | rewrite E in Hj; lia].
+  - set (ws := state_batches b (conf_of s b) ++ [index_batch b (conf_of s b)]).
+    set (bulk := block_bulk b (conf_of s b) ab). set (cw := commit_writes c s b ab) in *.
+    assert (Epre : pre_writes s b ab = ws ++ [bulk]) by (unfold pre_writes, ws; rewrite <- app_assoc; reflexivity).
+    assert (EW : import_batches c s b = ws ++ bulk :: cw) by (rewrite E, Epre, <- app_assoc; reflexivity).
+    destruct (PeanoNat.Nat.le_gt_cases j (length ws)) as [Hle|Hgt].
+    + left. apply (Before ws (bulk :: cw)); [apply s2_aux | exact EW | exact Hle].
+    + right. set (s3 := apply_writes s (pre_writes s b ab)).
+      assert (Lpre : length (pre_writes s b ab) = S (length ws)) by (rewrite Epre, app_length; cbn; lia).
+      assert (I3 : Inv c s3).
+      { pose proof (all_prefixes_firstn _ _ _ AP (length (pre_writes s b ab))) as X.
+        rewrite E, firstn_app, firstn_all, PeanoNat.Nat.sub_diag in X. cbn [firstn] in X. rewrite app_nil_r in X. exact X. }
+      assert (Lw : length (import_batches c s b) = (S (length ws) + length cw)%nat) by (rewrite E, app_length, Lpre; reflexivity).
+      assert (Lcw : (length cw <= 1)%nat).
+      { destruct (commit_shape c s3 (b_id b) (b_parent b) (b_just b) (b_comm b)) as [Ec|[(q & Ec & _)|(q & f & Ec & _)]];
+          fold s3 in Ec; change (writes_of_steps (commit_steps c s3 (b_id b) (b_parent b) (b_just b) (b_comm b))) with cw in Ec;
+          rewrite Ec; cbn; lia. }
+      assert (Es' : s' = s3).
+      { assert (Ejp : j = length (pre_writes s b ab)) by lia.
+        unfold s', s3. rewrite E, Ejp, firstn_app, firstn_all, PeanoNat.Nat.sub_diag. cbn [firstn]. rewrite app_nil_r. reflexivity. }
+      assert (Hcw : cw <> []) by (intro X; rewrite X in Lw; cbn in Lw; lia).
+      rewrite Es'. unfold s3. rewrite (pc_restart c s b ab Hc2 (mkInv2 c s I Q H) M I3 Hcw).
+      assert (Er1 : run1 c s b = apply_writes (apply_writes s (pre_writes s b ab)) (commit_writes c s b ab))
+        by (unfold run1; rewrite E; apply apply_writes_app).
+      rewrite <- Er1. apply restart_refines.
+      destruct Sm as [Rf Hfl _ _]. exact (proj1 (import_sim s nd b Hc Rf Hfl Hb)).
+Qed.
+
+Lemma import_all_app l1 : forall nd l2,
+  BN.import_all bc true nd (l1 ++ l2) = BN.import_all bc true (BN.import_all bc true nd l1) l2.
+Proof. induction l1 as [|x t IH]; intros nd l2; [reflexivity|]. cbn [app BN.import_all]. apply IH. Qed.
+
+Lemma hist_ok_app l1 : forall s nd l2, hist_ok s nd (l1 ++ l2) ->
+  hist_ok s nd l1 /\ hist_ok (run c s l1) (BN.import_all bc true nd (map ablk l1)) l2.
+Proof.
+  induction l1 as [|x t IH]; intros s nd l2 H; [split; [exact I | exact H]|].
+  cbn [app hist_ok] in H. destruct H as [Hx Ht]. destruct (IH _ _ _ Ht) as [H1 H2]. split; [split; assumption | exact H2].
+Qed.
+
+(* the same for a crash at any cut k of a whole history (i = the index of the interrupted import): the restarted node refines
+   the restarted Bft node that imported the first i blocks, or the first i + 1 *)
+Theorem crash_restart_sim s0 nd0 hist k i :
+  wf_cfg2 c -> Inv2 c s0 -> wf_hist c s0 hist -> cut_in_import c s0 hist k i ->
+  sim s0 nd0 -> hist_ok s0 nd0 hist ->
+  let img := crash c s0 hist k in
+  exists best, restart c true img = Some (restart_store c true img, best, finalized c (restart_store c true img)) /\
+    (refines (restart_store c true img) (BM.restart (BN.import_all bc true nd0 (map ablk (firstn i hist)))) \/
+     refines (restart_store c true img) (BM.restart (BN.import_all bc true nd0 (map ablk (firstn (S i) hist))))).
+Proof.
+  intros Hc2 I0 Hw [Hlo Hhi] S0 Hh img. pose proof Hc2 as [Hc _].
+  set (si := run c s0 (firstn i hist)).
+  assert (Ehist : hist = firstn i hist ++ skipn i hist) by (symmetry; apply firstn_skipn).
+  assert (Hwi : wf_hist c s0 (firstn i hist) /\ wf_hist c si (skipn i hist)) by (apply wf_hist_app; rewrite <- Ehist; auto).
+  destruct Hwi as [Hw1 Hw2].
+  assert (Hhi' : hist_ok s0 nd0 (firstn i hist) /\ hist_ok si (BN.import_all bc true nd0 (map ablk (firstn i hist))) (skipn i hist))
+    by (apply hist_ok_app; rewrite <- Ehist; exact Hh).
+  destruct Hhi' as [Hh1 Hh2].
+  assert (Ii : Inv2 c si) by (apply run_inv2; auto).
+  pose proof (run_sim (firstn i hist) s0 nd0 Hc S0 Hh1) as Si. fold si in Si.
+  assert (Ecrash : img = apply_writes si (firstn (k - offset c s0 hist i) (writes_of c si (skipn i hist)))).
+  { unfold img, crash. rewrite Ehist at 1. rewrite writes_of_app, firstn_app. fold si.
+    rewrite firstn_all2 by (unfold offset in Hlo; lia). rewrite apply_writes_app, run_writes. reflexivity. }
+  destruct (skipn i hist) as [|b rest] eqn:Esk.
+  - assert (Eimg : img = si) by (rewrite Ecrash; cbn [writes_of]; rewrite firstn_nil; reflexivity).
+    rewrite Eimg. destruct (restart_sim si _ Hc (sim_ref _ _ Si) (i2_q c si Ii) (i2_h c si Ii)) as (best & Er & Rf & _).
+    exists best. rewrite (restart_store_noop c si (i2_q c si Ii) (i2_h c si Ii)). split; [exact Er | left; exact Rf].
+  - destruct Hhi as [Hhi|Hlen].
+    2:{ exfalso. assert (length (skipn i hist) = 0%nat) by (rewrite skipn_length; lia). rewrite Esk in H. discriminate. }
+    assert (ES : firstn (S i) hist = firstn i hist ++ [b]) by (eapply firstn_S_skipn; eauto).
+    assert (Eoff : offset c s0 hist (S i) = (offset c s0 hist i + length (import_batches c si b))%nat).
+    { unfold offset. rewrite ES, writes_of_app, app_length. fold si. cbn. rewrite app_nil_r. reflexivity. }
+    set (j := (k - offset c s0 hist i)%nat) in *.
+    assert (Hj : (j < length (import_batches c si b))%nat) by lia.
+    assert (Ecr : img = apply_writes si (firstn j (import_batches c si b))).
+    { rewrite Ecrash. cbn [writes_of]. rewrite firstn_app. replace (j - length (import_batches c si b))%nat with 0%nat by lia.
+      cbn [firstn]. rewrite app_nil_r. reflexivity. }
+    destruct Hh2 as [Hb _].
+    destruct (crash_image_restart_sim si _ b j Hc2 Ii Si Hb Hj) as (best & Er & Hcase).
+    rewrite <- Ecr in Er, Hcase. exists best. split; [exact Er|].
+    rewrite ES, map_app, import_all_app. exact Hcase.
 Qed.
 
 (* ---------------------------------------------------------------- premises stated once for a history *)
